@@ -269,6 +269,8 @@ func (c *Conn) RemoteReset() {
 // State is a snapshot of a connection for the oracles.
 type State struct {
 	ID           int
+	CreatedS     int64 // sequence number at creation
+	Created      time.Duration
 	Inbound      bool
 	Local        netip.AddrPort
 	Remote       netip.AddrPort
@@ -289,6 +291,8 @@ func (c *Conn) Snapshot() State {
 	defer c.mu.Unlock()
 	return State{
 		ID:           c.ID,
+		CreatedS:     c.CreatedS,
+		Created:      c.Created,
 		Inbound:      c.Inbound,
 		Local:        c.local.AddrPort(),
 		Remote:       c.remote.AddrPort(),
